@@ -91,6 +91,42 @@ func amfEncodeCases() []amfCase {
 	return cases
 }
 
+// checkAmfOverlong: a string or property name longer than the 16-bit length field can express (65535 bytes) must be
+// refused by the encoder; writing a wrapped length in front of all its bytes is silent corruption the library itself
+// cannot read back.
+func checkAmfOverlong(c *Ctx, e *abs.Engine, rule string) {
+	P, R := c.P, c.R
+	for _, typ := range []string{"String", "amf0UTF8"} {
+		mf := P.Func("amf0", "(*"+typ+").MarshalBinary")
+		if !R.Anchor(mf != nil, rule, "amf0.(*"+typ+").MarshalBinary") {
+			continue
+		}
+		cs := amfCase{typ: typ, dom: map[string]Dom{"len(v)": {W: 24, Lo: 65536, Hi: -1}}}
+		v := Variant{Dom: cs.dom}
+		res := e.RunCustom(func(p *abs.Path) []abs.Value {
+			v.apply(p)
+			return e.CallFn(p, mf, []abs.Value{amfReceiver(e, P, p, mf, cs)})
+		})
+		var problems []string
+		for _, r := range res {
+			if r.Path.Abort != "" {
+				problems = append(problems, "undecided: "+r.Path.Abort)
+				continue
+			}
+			if r.Path.Panics != "" {
+				problems = append(problems, "panics: "+r.Path.Panics)
+				continue
+			}
+			if len(r.Ret) == 2 {
+				if _, isNil := r.Ret[1].(*abs.NilV); isNil {
+					problems = append(problems, "a value of more than 65535 bytes is encoded without an error: the 16-bit length wraps, so the bytes written cannot be decoded back (not by this library either)"+pathSuffix(r))
+				}
+			}
+		}
+		report(R, rule, "amf0|"+typ+"|encode|longer-than-65535-is-an-error", P.Pos(mf.Pos()), "a value that does not fit the 16-bit length is refused", "", dedup(problems), map[string]interface{}{"paths": len(res)})
+	}
+}
+
 func amfReceiver(e *abs.Engine, P *core.Program, p *abs.Path, fn *ssa.Function, cs amfCase) abs.Value {
 	if cs.ctor != "" {
 		v := e.CallFn(p, P.Func("amf0", cs.ctor), nil)[0]
@@ -207,6 +243,7 @@ func runC05(c *Ctx) {
 		}
 	}
 	amfDecodeChecks(c, e, "C05.consumed", "C05.scalar", nil)
+	checkAmfOverlong(c, e, "C05.scalar")
 	// the RTMP command packets are built from these values and advance by Size(): their Size() must be what they marshal
 	checkPacketSizes(c, "C05.size")
 }
@@ -533,6 +570,7 @@ func runC06(c *Ctx) {
 			map[string]interface{}{"paths": paths, "expected": abs.SpecString(spec)})
 	}
 	// decoders run on the specification layout (strict arrays with elements: see C06.strict)
+	checkAmfOverlong(c, e, "C06.layout")
 	amfDecodeChecks(c, e, "C06.decode", "C06.decode", func(d amfDec) bool {
 		return d.typ == "amf0UTF8" || d.typ == "objectEOF" || (d.typ == "StrictArray" && d.nprops > 0)
 	})
